@@ -14,9 +14,14 @@ spec/SigHash.tla   part 1: Preimage(mode, shape, idx, hash type, script, annex, 
      another digest; "undefined" => no candidate digest may be accepted
   3. G->R: request orders of the cache machine replayed on one Tx object, sequentially and concurrently
      (thorough: also under the race detector)
+  3b. warm-up prefix + concurrent burst: scenarios from the model (no warm-up / one completed request of a hash-type
+     class - the classes fill different subsets of the cache slots, FillsAreNeeded - then a burst of request kinds) on
+     fresh Tx objects of a transaction with hundreds..thousands of inputs, 8 goroutines asking digests of different
+     inputs with different hash types at GOMAXPROCS 2/4/16, every digest compared with the uncached reference; once
+     more under the race detector, reports with both accesses inside the repository are violations
   4. binding self-test: corrupted predictions must be rejected
 """
-import json, os, re
+import glob, json, os, re
 from vf import Infra
 
 ALL = ",".join(map(str, range(256)))
@@ -30,7 +35,7 @@ CHT_FULL = "0,1,2,3,4,129,130,131"
 
 BASE = dict(MODES='"legacy","bip143","bip341"', NINS="1,2", NOUTS="0,1,2", HT1=HT1, HT4LO="1,3,130", HT4HI="1,8388608,16777215",
             TAPKEY=ALL, TAPSCRIPT=TAPSET, MAXSEP=1, UCS="TRUE", SIG="TRUE", MULTI="TRUE", LONG="TRUE", BUG="none",
-            CNIN=2, CNOUT=2, CMODES='"legacy","bip143","bip341"', CHT=CHT_FULL, THREADS=2, MAXREQ=3,
+            CNIN=2, CNOUT=2, CIDX="0,1,2", BURSTLEN=1, CMODES='"legacy","bip143","bip341"', CHT=CHT_FULL, THREADS=2, MAXREQ=3,
             SPEC="PSpec", INVS="", PROPLINE="", GENMODE="cases", VECFILE="none.json")
 
 
@@ -45,7 +50,7 @@ def gen_defs(d):
 
 
 def mc_defs(d):
-    return {k: v for k, v in d.items() if k not in ("GENMODE", "VECFILE")}
+    return {k: v for k, v in d.items() if k not in ("GENMODE", "VECFILE", "BURSTLEN")}
 
 
 def tlc(ctx, *a, **kw):
@@ -57,6 +62,28 @@ def tlc(ctx, *a, **kw):
             return r
         ctx.log("TLC was killed from outside (rc=%s), running it again" % r.rc)
     return r
+
+
+def tlc_many(ctx, jobs, width=8):
+    """Run independent TLC jobs [(key, args, kwargs)] side by side (each in its own scratch copy of spec/); returns
+    {key: TLCResult}.  ctx.tlc numbers its scratch directories without a lock: starts are staggered and a clash
+    (FileExistsError from copytree) is simply repeated."""
+    import concurrent.futures, time
+
+    def one(i, a, kw):
+        time.sleep(0.4 * i)
+        for attempt in range(6):
+            try:
+                return tlc(ctx, *a, **kw)
+            except FileExistsError:
+                time.sleep(0.3)
+        raise Infra("could not start TLC")
+    out = {}
+    with concurrent.futures.ThreadPoolExecutor(max_workers=width) as ex:
+        futs = {key: ex.submit(one, i % width, a, kw) for i, (key, a, kw) in enumerate(jobs)}
+        for key, f in futs.items():
+            out[key] = f.result()
+    return out
 
 
 def lines_to(r, tag, path):
@@ -82,6 +109,53 @@ def driver(ctx, binp, args, timeout=3000, env=None):
     if p.returncode != 0 or summary is None:
         raise Infra("sighash %s failed rc=%d: %s %s" % (args[0], p.returncode, p.stdout[-1500:], p.stderr[-3000:]))
     return summary, fails, p.stderr
+
+
+def race_env(ctx, tag, procs):
+    return {"GOMAXPROCS": str(procs), "GORACE": "halt_on_error=0 exitcode=0 log_path=%s" % os.path.join(ctx.scratch, "race-" + tag)}
+
+
+def race_reports(ctx, tag):
+    """The detector's reports of a run (same classification as checks/c11.py): (in the repository, elsewhere), each a list
+    of (signature, text).  A report counts against gocoin when the top non-runtime frames of BOTH accesses are in ctx.repo."""
+    genuine, other = [], []
+    repo = os.path.realpath(ctx.repo) + "/"
+    for fn in glob.glob(os.path.join(ctx.scratch, "race-" + tag + ".*")):
+        txt = open(fn, errors="replace").read()
+        for blk in txt.split("=================="):
+            if "WARNING: DATA RACE" not in blk:
+                continue
+            tops = []
+            for sec in re.split(r"\n\s*\n", blk):
+                m = re.search(r"^(?:Previous )?(?:[Aa]tomic )?(?:[Rr]ead|[Ww]rite) at 0x[0-9a-f]+ by .*?:\n((?:  .*\n?)+)", sec, re.M)
+                if not m:
+                    continue
+                top = None
+                for fun, path, line in re.findall(r"^  (\S.*)\n\s+(\S+?):(\d+)", m.group(1), re.M):
+                    if "/go-" in path or "/go/src/" in path or path.startswith("/usr/lib/go") or "/golang" in path:
+                        continue   # runtime / standard library frame: the caller is the one that matters
+                    top = (re.sub(r"\(\)$", "", fun).replace("github.com/piotrnar/gocoin/", ""), path)
+                    break
+                tops.append(top)
+            if len(tops) < 2 or any(t is None for t in tops[:2]):
+                other.append(("unparsed", blk[:3000]))
+                continue
+            inrepo = [os.path.realpath(t[1]).startswith(repo) for t in tops[:2]]
+            names = sorted(set("%s@%s" % (t[0], os.path.basename(t[1])) for t in tops[:2]))
+            (genuine if all(inrepo) else other).append(("C02:race:" + "|".join(names), blk[:6000]))
+    return genuine, other
+
+
+def note_races(ctx, tag, replay):
+    g, h = race_reports(ctx, tag)
+    for sig, txt in g:
+        ctx.violation(sig, dict(replay, kind="race", race_report=txt),
+                      "data race inside the repository while digests are requested concurrently on one Tx object (%s)" % sig)
+    if h:
+        ctx.log("WARNING: %d race report(s) with an access outside the repository (not counted against gocoin): %s" % (len(h), h[0][1][:1500]))
+        ctx.cov["harness_race_reports"] = ctx.cov.get("harness_race_reports", 0) + len(h)
+    ctx.cov["race_reports_in_repo"] = ctx.cov.get("race_reports_in_repo", 0) + len(g)
+    return len(g)
 
 
 def signature(f):
@@ -131,39 +205,17 @@ def run(ctx):
     cov["reference_selfcheck"] = {"core_legacy_vectors_reproduced": vs["legacy_ok"], "real_bip143_signatures_verified": vs["bip143_ok"]}
     ctx.log("reference self-check: %d legacy vectors, %d BIP143 signatures" % (vs["legacy_ok"], vs["bip143_ok"]))
 
-    # ---- 1. the design
-    states = transitions = 0
-    refuted = []
-    big = dict(NINS="1,2,3", NOUTS="0,1,2,3", MAXSEP=2, HT1=ALL)
-    # the flag-meaning invariants are evaluated by TLC on every enumerated case during the export runs of step 2
-    # (same constants, so a separate run of PSpec would only repeat them); here: the broken rules must be refuted
-    for bug in ("acp_all_inputs", "none_keeps_outputs") + (() if quick else ("no_seq_zero",)):
-        r = tlc(ctx, "SigHash", "SigHash_mc", defines=mc_defs(D(SPEC="PSpec", INVS=PINV, BUG=bug, TAPKEY=TAPSET, MAXSEP=0, MULTI="FALSE", LONG="FALSE")), timeout=900)
-        if not r.invariant:
-            raise Infra("sanity: the preimage rules broken by %s should violate an invariant, TLC found none\n%s" % (bug, r.tail))
-        refuted.append("%s violates %s" % (bug, r.invariant))
-    csets = [D(SPEC="CSpec", INVS=CINV, PROPLINE="PROPERTIES SlotsStable", CNOUT=2, MAXREQ=3, CHT="1,3,4,131" if quick else CHT_FULL)]
-    if not quick:
-        csets += [D(SPEC="CSpec", INVS=CINV, PROPLINE="PROPERTIES SlotsStable", CNOUT=1, MAXREQ=3, CHT="1,2,3,4,129,131"),
-                  D(SPEC="CSpec", INVS=CINV, PROPLINE="PROPERTIES SlotsStable", CNOUT=2, MAXREQ=4, THREADS=1),
-                  D(SPEC="CSpec", INVS=CINV, PROPLINE="PROPERTIES SlotsStable", CNIN=3, CNOUT=2, MAXREQ=3, CHT="1,3,4,131", CMODES='"bip143","bip341"')]
-    cstates = 0
-    for d in csets:
-        r = tlc(ctx, "SigHash", "SigHash_mc", defines=mc_defs(d), timeout=3000)
-        if r.invariant:
-            raise Infra("design-level counterexample in the cache machine (%s)\n%s" % (r.invariant, r.tail))
-        r.require_ok("mc cache")
-        states += r.distinct
-        transitions += r.generated
-        cstates += r.distinct
-    for bug in ("nolock", "single_cached") + (() if quick else ("wrong_input", "shared_outputs")):
-        r = tlc(ctx, "SigHash", "SigHash_mc", defines=mc_defs(D(SPEC="CSpec", INVS=CINV, BUG=bug, CHT="1,3,129,131", MAXREQ=2)), timeout=900)
-        if r.invariant != "CacheTransparent":
-            raise Infra("sanity: the cache machine broken by %s should violate CacheTransparent, TLC says %s\n%s" % (bug, r.invariant, r.tail))
-        refuted.append("%s violates %s" % (bug, r.invariant))
-    cov["refuted_variants"] = refuted
 
-    # ---- 2. every enumerated case on the real code
+    # ---- every TLC run of this check is independent of the replays: plan them all, run them side by side
+    big = dict(NINS="1,2,3", NOUTS="0,1,2,3", MAXSEP=2, HT1=ALL)
+    pbugs = ("acp_all_inputs", "none_keeps_outputs", "no_seq_zero")
+    cbugs = ("nolock", "single_cached", "lock_if_nil", "wrong_input", "shared_outputs")
+    SP = "PROPERTIES SlotsStable FillsAreNeeded"
+    csets = [D(SPEC="CSpec", INVS=CINV, PROPLINE=SP, CNOUT=2, MAXREQ=3, CHT="1,3,131" if quick else CHT_FULL)]
+    if not quick:
+        csets += [D(SPEC="CSpec", INVS=CINV, PROPLINE=SP, CNOUT=1, MAXREQ=3, CHT="1,2,3,4,129,131"),
+                  D(SPEC="CSpec", INVS=CINV, PROPLINE=SP, CNOUT=2, MAXREQ=4, THREADS=1),
+                  D(SPEC="CSpec", INVS=CINV, PROPLINE=SP, CNIN=3, CNOUT=2, MAXREQ=3, CHT="1,3,4,131", CMODES='"bip143","bip341"')]
     if quick:
         gsets = [("all", D())]
     else:
@@ -176,11 +228,72 @@ def run(ctx):
                  ("bip341-key", D(MODES='"bip341"', TAPKEY=ALL, TAPSCRIPT="", **big)),
                  ("bip341-scripts", D(MODES='"bip341"', TAPKEY="", TAPSCRIPT=TAPSET, **big)),
                  ("bip341-script-256", D(MODES='"bip341"', TAPKEY="", TAPSCRIPT=ALL, **dict(big, MAXSEP=0)))]
+    full = D(GENMODE="cache", THREADS=1, CNIN=2, CNOUT=2, CHT=CHT_FULL)
+    small = dict(CMODES='"bip143","bip341"', CHT="1,3,131")
+    if quick:
+        bsets = [("o2", dict(full, MAXREQ=2)),
+                 ("t2", dict(full, MAXREQ=3, THREADS=2, CMODES='"bip143","bip341"', CHT="1,131"))]
+    else:
+        bsets = [("o3", dict(full, MAXREQ=3, CHT="0,1,3,4,129,131")),
+                 ("o4", dict(full, MAXREQ=4, **small)),
+                 ("t2", dict(full, MAXREQ=3, THREADS=2, **small)),
+                 ("o3n1", dict(full, MAXREQ=3, CNOUT=1, CMODES='"bip143","bip341"', CHT="1,2,3,131")),
+                 ("o3i3", dict(full, MAXREQ=3, CNIN=3, CNOUT=2, **small))]
+    N = 1000 if quick else 2000
+    cidx = sorted({0, 1, 2, N // 3, N // 2 - 1, N // 2, N - 2, N - 1})      # with and without a matching output (N/2 outputs)
+    bdef = D(GENMODE="burst", CNIN=N, CNOUT=N // 2, CIDX=",".join(map(str, cidx)), CHT="0,1,2,3,129,130,131", BURSTLEN=1, INVS="")
+    jobs = []
+    for bug in pbugs:
+        jobs.append(("pbug-" + bug, ("SigHash", "SigHash_mc"), dict(workers=2, timeout=900,
+                     defines=mc_defs(D(SPEC="PSpec", INVS=PINV, BUG=bug, TAPKEY=TAPSET, MAXSEP=0, MULTI="FALSE", LONG="FALSE")))))
+    for i, d in enumerate(csets):
+        jobs.append(("cset-%d" % i, ("SigHash", "SigHash_mc"), dict(workers=4 if quick else 6, timeout=3000, defines=mc_defs(d))))
+    for bug in cbugs:
+        jobs.append(("cbug-" + bug, ("SigHash", "SigHash_mc"), dict(workers=2, timeout=900,
+                     defines=mc_defs(D(SPEC="CSpec", INVS="CacheTransparent", BUG=bug, CHT="1,3,129,131", MAXREQ=3 if bug == "lock_if_nil" else 2)))))
+    for tag, d in gsets:
+        jobs.append(("gen-" + tag, ("SigHashGen", "SigHash_gen"), dict(workers=1, timeout=3000, defines=gen_defs(dict(d, INVS=PINV)))))
+    for tag, d in bsets:
+        jobs.append(("beh-" + tag, ("SigHashGen", "SigHash_gen"), dict(workers=1, timeout=3000, defines=gen_defs(dict(d, INVS=CINV)))))
+    jobs.append(("burst", ("SigHashGen", "SigHash_gen"), dict(workers=1, timeout=3000, defines=gen_defs(bdef))))
+    if not quick:
+        # two request kinds per burst (also BIP143 and BIP341 requests mixed: they share hashLock)
+        jobs.append(("burst2", ("SigHashGen", "SigHash_gen"), dict(workers=1, timeout=3000,
+                     defines=gen_defs(dict(bdef, GENMODE="scenarios", CNIN=2, CNOUT=1, CIDX="0", CMODES='"bip143","bip341"', BURSTLEN=2)))))
+    jobs.sort(key=lambda j: not j[0].startswith(("gen-", "cset-")))       # the long ones first
+    R = tlc_many(ctx, jobs, width=10)
+
+    # ---- 1. the design
+    # (the flag-meaning invariants are evaluated by TLC on every enumerated case during the export runs of step 2;
+    # here: the broken rules must be refuted, the cache machine must hold)
+    states = transitions = cstates = 0
+    refuted = []
+    for bug in pbugs:
+        r = R["pbug-" + bug]
+        if not r.invariant:
+            raise Infra("sanity: the preimage rules broken by %s should violate an invariant, TLC found none\n%s" % (bug, r.tail))
+        refuted.append("%s violates %s" % (bug, r.invariant))
+    for i, d in enumerate(csets):
+        r = R["cset-%d" % i]
+        if r.invariant:
+            raise Infra("design-level counterexample in the cache machine (%s)\n%s" % (r.invariant, r.tail))
+        r.require_ok("mc cache")
+        states += r.distinct
+        transitions += r.generated
+        cstates += r.distinct
+    for bug in cbugs:
+        r = R["cbug-" + bug]
+        if r.invariant != "CacheTransparent":
+            raise Infra("sanity: the cache machine broken by %s should violate CacheTransparent, TLC says %s\n%s" % (bug, r.invariant, r.tail))
+        refuted.append("%s violates %s" % (bug, r.invariant))
+    cov["refuted_variants"] = refuted
+
+    # ---- 2. every enumerated case on the real code
     tot = dict(lines=0, direct=0, e2e_pos=0, e2e_neg=0, undefined=0, candidates=0, ones=0, distinct_digests=0, distinct_layouts=0)
     by_mode = {}
     case_files = []
     for tag, d in gsets:
-        r = tlc(ctx, "SigHashGen", "SigHash_gen", workers=1, defines=gen_defs(dict(d, INVS=PINV)), timeout=3000)
+        r = R["gen-" + tag]
         if r.invariant:
             raise Infra("design-level counterexample during export (%s)\n%s" % (r.invariant, r.tail))
         r.require_ok("export " + tag)
@@ -207,23 +320,12 @@ def run(ctx):
                     ctx.sample(json.loads(l), limit=4)
 
     # ---- 3. request orders of the cache machine on one Tx object
-    full = D(GENMODE="cache", THREADS=1, CNIN=2, CNOUT=2, CHT=CHT_FULL)
-    small = dict(CMODES='"bip143","bip341"', CHT="1,3,131")
-    if quick:
-        bsets = [("o2", dict(full, MAXREQ=2)),
-                 ("o3", dict(full, MAXREQ=3, **small)),
-                 ("t2", dict(full, MAXREQ=3, THREADS=2, CMODES='"bip143","bip341"', CHT="1,131"))]
-    else:
-        bsets = [("o3", dict(full, MAXREQ=3, CHT="0,1,3,4,129,131")),
-                 ("o4", dict(full, MAXREQ=4, **small)),
-                 ("t2", dict(full, MAXREQ=3, THREADS=2, **small)),
-                 ("o3n1", dict(full, MAXREQ=3, CNOUT=1, CMODES='"bip143","bip341"', CHT="1,2,3,131")),
-                 ("o3i3", dict(full, MAXREQ=3, CNIN=3, CNOUT=2, **small))]
     orders = calls = 0
     cfirst = None
-    racebin = None if quick else ctx.build("sighash", race=True)
+    racebin_all = ctx.build("sighash", race=True)
+    racebin = None if quick else racebin_all
     for tag, d in bsets:
-        r = tlc(ctx, "SigHashGen", "SigHash_gen", workers=1, defines=gen_defs(dict(d, INVS=CINV)), timeout=3000)
+        r = R["beh-" + tag]
         if r.invariant:
             raise Infra("design-level counterexample in the cache machine during export (%s)\n%s" % (r.invariant, r.tail))
         r.require_ok("cache export " + tag)
@@ -246,20 +348,68 @@ def run(ctx):
         if cfirst is None:
             cfirst = (table, beh, d)
         if racebin:
-            for procs in ("2", "16"):
-                summ, fails, err = driver(ctx, racebin, args + ["-conc", "2"], env={"GOMAXPROCS": procs, "GORACE": "halt_on_error=0 exitcode=0"}, timeout=3000)
-                report(ctx, fails, "cache", {"seed": ctx.seed, "nin": d["CNIN"], "nout": d["CNOUT"], "table": open(table).read().splitlines()})
+            for procs in (2, 16):
+                rtag = "c%s-%d" % (tag, procs)
+                rp = {"seed": ctx.seed, "nin": d["CNIN"], "nout": d["CNOUT"], "table": open(table).read().splitlines()}
+                summ, fails, err = driver(ctx, racebin, args + ["-conc", "2"], env=race_env(ctx, rtag, procs), timeout=3000)
+                report(ctx, fails, "cache", rp)
                 calls += summ["calls"] + summ["concurrent_calls"]
-                if "DATA RACE" in err:
-                    m = re.search(r"WARNING: DATA RACE(.*?)={10,}", err, re.S)
-                    txt = (m.group(1) if m else err)[:3000]
-                    fn = re.search(r"btc\.\(\*Tx\)\.(\w+)", txt)
-                    ctx.violation("C02:data-race:" + (fn.group(1) if fn else "?"), {"kind": "race", "seed": ctx.seed, "report": txt},
-                                  "the race detector reports unsynchronised access while digests are requested concurrently on one Tx object")
+                note_races(ctx, rtag, {"seed": ctx.seed, "stage": "cache orders " + tag, "gomaxprocs": procs})
             with open(beh) as fh:
                 for i, l in enumerate(fh):
                     if i == nb // 2 and len(cov["samples"]) < 5:
                         ctx.sample(json.loads(l), limit=5)
+
+
+    # ---- 3b. warm-up prefix + concurrent burst on transactions with many inputs (filling a cache takes long)
+    r = R["burst"]
+    r.require_ok("burst export")
+    btable = os.path.join(ctx.scratch, "burst-table.json")
+    bscen = os.path.join(ctx.scratch, "burst-scen.json")
+    nt, ns = lines_to(r, "VFR", btable), lines_to(r, "VFS", bscen)
+    if not quick:
+        r = R["burst2"]
+        r.require_ok("burst scenario export")
+        with open(bscen, "a") as f:
+            for sline in r.lines("VFS"):
+                if sline.count('"mode"') > 2:       # the one-kind bursts are in the file already
+                    f.write(sline + "\n")
+                    ns += 1
+    if nt == 0 or ns == 0:
+        raise Infra("burst export produced nothing\n" + r.tail)
+    bargs = ["burst", "-table", btable, "-nin", str(N), "-nout", str(N // 2), "-seed", str(ctx.seed), "-g", "8", "-per", "3"]
+    burst_runs = burst_calls = burst_nontrivial = 0
+    for procs in (2, 4, 16):
+        summ, fails, _ = driver(ctx, binp, bargs + ["-in", bscen, "-reps", "2" if quick else "3"], env={"GOMAXPROCS": str(procs)}, timeout=3000)
+        if summ["scenarios"] != ns:
+            raise Infra("burst replay: %d of %d scenarios processed" % (summ["scenarios"], ns))
+        ctx.log("burst stage GOMAXPROCS=%d: %d scenarios (%d with cold cache slots) x %d repetitions on a %d-input transaction, %d digests compared: %d wrong in %d runs" % (
+            procs, ns, summ["nontrivial"], 2 if quick else 3, N, summ["calls"], summ["fail"], summ["failed_runs"]))
+        report(ctx, fails, "burst", {"seed": ctx.seed, "nin": N, "cidx": cidx, "gomaxprocs": procs})
+        burst_runs += summ["runs"]
+        burst_calls += summ["calls"]
+        burst_nontrivial = summ["nontrivial"]
+    # once under the race detector: the scenarios in which the burst has to fill a cache slot
+    rscen = os.path.join(ctx.scratch, "burst-scen-race.json")
+    with open(bscen) as f, open(rscen, "w") as g:
+        k = 0
+        for l in f:
+            if '"cold":[]' not in l:
+                k += 1
+                if quick and k % 2:
+                    continue
+                g.write(l)
+    summ, fails, _ = driver(ctx, racebin_all, bargs + ["-in", rscen, "-reps", "1"], env=race_env(ctx, "burst", 4), timeout=3000)
+    report(ctx, fails, "burst", {"seed": ctx.seed, "nin": N, "cidx": cidx, "gomaxprocs": 4, "race_build": True})
+    nraces = note_races(ctx, "burst", {"seed": ctx.seed, "stage": "burst", "nin": N, "gomaxprocs": 4})
+    ctx.log("burst stage under the race detector: %d scenarios, %d digests compared, %d wrong, %d race report(s) inside the repository" % (
+        summ["scenarios"], summ["calls"], summ["fail"], nraces))
+    burst_runs += summ["runs"]
+    burst_calls += summ["calls"]
+    with open(bscen) as fh:
+        for i, l in enumerate(fh):
+            if i == ns // 3 and len(cov["samples"]) < 6:
+                ctx.sample(json.loads(l), limit=6)
 
     # ---- coverage (measured)
     ctx.level = "exploration"
@@ -272,7 +422,8 @@ def run(ctx):
                 "cases_by_mode_with_digest": by_mode, "digests_compared": tot["direct"], "distinct_reference_digests": tot["distinct_digests"],
                 "legacy_single_bug_ONE_cases": tot["ones"], "spends_signed_over_reference_digest_verified": tot["e2e_pos"], "spends_signed_over_another_digest_verified": tot["e2e_neg"],
                 "undefined_cases": tot["undefined"], "undefined_candidate_signatures": tot["candidates"],
-                "cache_request_orders_replayed": orders, "cache_calls_compared": calls, "race_detector": bool(racebin),
+                "cache_request_orders_replayed": orders, "cache_calls_compared": calls, "race_detector": True, "burst_scenarios": ns, "burst_scenarios_with_cold_slots": burst_nontrivial, "burst_inputs": N,
+                "burst_runs": burst_runs, "burst_digests_compared": burst_calls,
                 "states": states, "transitions": transitions, "cache_machine_states": cstates})
     ctx.assumptions += [
         "SHA-256, the descriptor -> bytes step, secp256k1 / ECDSA / BIP340 signing are the driver's own code (crypto/sha256, math/big), checked on every run against "
@@ -282,7 +433,8 @@ def run(ctx):
         "P2WPKH, taproot key path and single-leaf script path; P2SH wrappers, n-of-m multisig and truncated pushes are not enumerated" % (1 if quick else 2),
         "transactions: %s, seeded random field values (scripts up to 300 bytes so CompactSize 0xfd occurs)" % ("1..2 inputs, 0..2 outputs" if quick else "1..3 inputs, 0..3 outputs"),
         "four-byte hash types reach only the function level (the interpreter takes the hash type from one signature byte)",
-        "concurrent replays do not control the interleaving (no hooks): goroutines are released together, repeated, plus the race detector in the thorough tier"]
+        "concurrent replays and bursts do not control the interleaving (no hooks): goroutines are released together, repeated, at GOMAXPROCS 2/4/16, "
+        "on many-input transactions so that cache fills take long; plus the race detector (burst stage: both tiers; cache orders: thorough tier)"]
 
     # ---- 4. binding self-tests (only meaningful when the unmodified inputs were accepted)
     # (the self-test corrupts predictions of cases that pass; it does not depend on failing ones)
@@ -363,8 +515,23 @@ def replay_cmd(ctx, path):
         beh = os.path.join(ctx.scratch, "b.json")
         open(beh, "w").write(json.dumps({"steps": rp["case"]}) + "\n")
         summ, fails, _ = driver(ctx, binp, ["cache", "-table", table, "-in", beh, "-nin", str(rp["nin"]), "-nout", str(rp["nout"]), "-seed", str(rp["seed"]), "-conc", "8"])
+    elif rp.get("kind") == "burst":
+        n = rp["nin"]
+        d = D(GENMODE="burst", CNIN=n, CNOUT=n // 2, CIDX=",".join(map(str, rp["cidx"])), CHT="0,1,2,3,129,130,131", BURSTLEN=1, INVS="")
+        r = tlc(ctx, "SigHashGen", "SigHash_gen", workers=1, defines=gen_defs(d), timeout=3000)
+        r.require_ok("re-export")
+        table = os.path.join(ctx.scratch, "t.json")
+        lines_to(r, "VFR", table)
+        sc = os.path.join(ctx.scratch, "s.json")
+        open(sc, "w").write(json.dumps(rp["case"]) + "\n")
+        fails = []
+        for procs in sorted({2, 4, 16, rp.get("gomaxprocs", 4)}):
+            summ, f, _ = driver(ctx, binp, ["burst", "-table", table, "-in", sc, "-nin", str(n), "-nout", str(n // 2), "-seed", str(rp["seed"]),
+                                            "-reps", "30"], env={"GOMAXPROCS": str(procs)})
+            print("GOMAXPROCS=%d: %d of %d runs with a wrong digest" % (procs, summ["failed_runs"], summ["runs"]))
+            fails += f[:2]
     else:
-        print("race reports: re-run the check in the thorough tier with the same VERIF_SEED")
+        print("race reports: re-run the check with the same VERIF_SEED (the burst stage runs under the race detector in both tiers)")
         return 2
     for f in fails:
         print("reproduced:", f["what"])
